@@ -44,6 +44,7 @@ POLLUTERS = {
     'http-response-in-place': '导入《@验证HTTP》\n令答设为（新建HTTP响应：200、“好”、【“K” = “1”】）\n答之头部#“Set-Cookie” = “a=1”\n',
     'redefine-library-class-ctor': '导入《@验证HTTP》\n如何新建HTTP响应？\n    输入码\n    （显示：“劫持”）\n令答设为（新建HTTP响应：200）\n',
     'json-parse-result-changed-unbound': '导入《@JSON》\n令文设为“{"a":[1,2],"b":{"c":1}}”\n令X设为以（解析JSON：文）（写入：“多”、99）\n令Y设为以（解析JSON：文）（移除：“a”）\n',
+    'mutate-number-straight-from-literal': '如何升？\n    输入数\n    输出以数（自增：1）\n令甲设为（升：41）\n令乙设为以100（自减：30）\n令丙设为以【7，8】#1（自增：5）\n',
     'mutate-list-literal-in-method': '如何列？\n    输出【1，2】\n令A设为（列）\n以A（后增：3）\n',
 }
 PROBES = {
@@ -59,6 +60,7 @@ PROBES = {
     'http-request': '导入《@验证HTTP》\n令甲设为（新建HTTP请求：“POST”、“http://b.example/r”、【“数” = 1】）\n令乙设为（新建HTTP请求：“POST”、“http://b.example/t”、“体”）\n令丙设为（新建HTTP请求：“GET”、“http://b.example/g”）\n输出【甲之头部，乙之头部，丙之头部】\n',
     'http-response': '导入《@验证HTTP》\n令答设为（新建HTTP响应：201、“好”、【“K” = “1”】）\n输出【答之状态码，答之头部】\n',
     'json-parse': '导入《@JSON》\n令文设为“{"a":[1,2],"b":{"c":1}}”\n输出（解析JSON：文）\n',
+    'number-literals': '如何升？\n    输入数\n    输出以数（自增：1）\n输出【41，100，7，（升：41），以100（自减：30），41 + 100】\n',
     'loop-indices': '令和设为0\n令出设为【】\n以序、项遍历【5，6，7】：\n    和 = 和 + 序\n    以出（后增：项）\n输出【和，出】\n',
     'dict-loop-keys': '令出设为【】\n以键、值遍历【“1*^3” = 1，b = 2】：\n    以出（后增：键）\n输出 出\n',
     'literals': '如何取？\n    输出 3\n如何文？\n    输出 “1*^3”\n如何列？\n    输出【1，2】\n输出【（取），7，（文），（列），【1，2】之长度，“ab”之字符组，【a = 1】之所有索引】\n',
